@@ -113,11 +113,21 @@ fn run(ctx: &mut Ctx) {
             _ => rng.next() as u32,
         };
         let big_steps = rng.bool();
-        let mut serial = rng.below(1000) as u32;
+        // serial numbers: usually small, now and then straddling 2^31 or close to 2^32 (they are labels, never compared)
+        let mut serial = match rng.below(10) {
+            0 => (1u32 << 31) - 20,
+            1 => u32::MAX - 5000,
+            _ => rng.below(1000) as u32,
+        };
         let mut serial_from_zero = i % 7 == 0;
         let undec_mode = rng.below(6); // 0 none, 1 first, 2 middle, 3 last, 4 all, 5 random
         let mut files: Vec<FileSpec> = Vec::new();
-        let mut t0 = 1_600_000_000 + rng.below(1000) as u32;
+        // unix time of the run: usually 2020, now and then straddling 2^31 s (January 2038) or close to 2^32
+        let mut t0 = match rng.below(10) {
+            0 => (1u32 << 31) - 40 + rng.below(30) as u32,
+            1 => u32::MAX - 20_000 + rng.below(1000) as u32,
+            _ => 1_600_000_000 + rng.below(1000) as u32,
+        };
         let mut full_budget = if i % 3 == 0 { 2 } else { 0 };
         let mut total_main = 0usize;
         let mut last_trg: Option<Vec<u8>> = None;
